@@ -219,7 +219,7 @@ impl<C: ContentAddrStore> UnsealedState<C> {
         let (mel, _) = smpool.swap_many(0, fee_subsidy);
         self.pools
             .insert(PoolKey::new(Denom::Mel, Denom::Sym), smpool);
-        self.fee_pool += CoinValue(mel);
+        self.fee_pool = CoinValue(self.fee_pool.0.saturating_add(mel));
         // erg subsidy
         let erg_subsidy = if self.tip_909a() {
             tip909a_erg_subsidy
@@ -268,7 +268,7 @@ impl<C: ContentAddrStore> UnsealedState<C> {
         let pseudocoin_data = CoinDataHeight {
             coin_data: CoinData {
                 covhash: action.reward_dest,
-                value: base_fees + tips,
+                value: CoinValue(base_fees.0.saturating_add(tips.0)),
                 denom: Denom::Mel,
                 additional_data: Default::default(),
             },
